@@ -31,6 +31,21 @@ MATERIALS = (
     ((1.5, 0.25), (0.625, 1.75), (5.0, 2.0), (12.0, 0.5)),
 )
 
+# boundary values of the admissible range: nu = 0 <=> lambda = 0 (mu = 1 and a dyadic fraction), nearly incompressible, auxetic (nu = -0.3)
+BOUNDARY_MATERIALS = ((0.0, 1.0), (0.0, 0.25), (24.5, 0.5), (-0.375, 1.0))
+
+
+def undetermined(names, lam, mu):
+    """Reason why the given pair of quantities does not determine (lambda, mu) for this material, else ''."""
+    q = {"first_parameter": "lambda", "second_parameter": "mu", "shear_modulus": "mu", "poissons_ratio": "nu", "youngs_modulus": "E"}
+    kinds = {q[n] for n in names}
+    if kinds == {"lambda", "nu"} and lam == 0:
+        return "pair (lambda = 0, nu = 0) does not determine mu"
+    if kinds == {"lambda", "E"} and lam < 0:
+        return "pair (lambda < 0, E) has two admissible shear moduli"
+    return ""
+
+
 NAMES = ("first_parameter", "second_parameter", "shear_modulus", "poissons_ratio", "youngs_modulus")
 
 
